@@ -264,6 +264,23 @@ class AddLayer(Command):
         self.viewer.remove_layer(self.layer)
 
 
+def _store_subset_groups(command, session):
+    # Remember which subset groups exist and which are being edited, so that
+    # undo can remove groups that the command creates
+    command.old_groups = list(getattr(command.data_collection, 'subset_groups', ()))
+    mode = getattr(session, 'edit_subset_mode', None)
+    command.old_edit_subset = None if mode is None else mode.edit_subset
+
+
+def _restore_subset_groups(command, session):
+    for group in list(getattr(command.data_collection, 'subset_groups', ())):
+        if group not in command.old_groups:
+            command.data_collection.remove_subset_group(group)
+    mode = getattr(session, 'edit_subset_mode', None)
+    if mode is not None:
+        mode.edit_subset = command.old_edit_subset
+
+
 class ApplyROI(Command):
     """
     Apply an ROI to a data collection, updating subset states
@@ -285,13 +302,18 @@ class ApplyROI(Command):
         for data in self.data_collection:
             for subset in data.subsets:
                 self.old_states[subset] = subset.subset_state
+        _store_subset_groups(self, session)
 
         self.apply_func(self.roi)
 
     def undo(self, session):
+        _restore_subset_groups(self, session)
+
         for data in self.data_collection:
             for subset in data.subsets:
-                if subset not in self.old_states:
+                # (grouped subsets of the groups that remain belong to
+                # datasets that were added since, and have to stay)
+                if subset not in self.old_states and getattr(subset, 'group', None) is None:
                     subset.delete()
 
         for k, v in self.old_states.items():
@@ -320,6 +342,7 @@ class ApplySubsetState(Command):
         for data in self.data_collection:
             for subset in data.subsets:
                 self.old_states[subset] = subset.subset_state
+        _store_subset_groups(self, session)
 
         mode = session.edit_subset_mode
         override_mode = self.extra.get('override_mode')
@@ -332,9 +355,13 @@ class ApplySubsetState(Command):
         mode.update(self.data_collection, self.subset_state, override_mode=override_mode)
 
     def undo(self, session):
+        _restore_subset_groups(self, session)
+
         for data in self.data_collection:
             for subset in data.subsets:
-                if subset not in self.old_states:
+                # (grouped subsets of the groups that remain belong to
+                # datasets that were added since, and have to stay)
+                if subset not in self.old_states and getattr(subset, 'group', None) is None:
                     subset.delete()
 
         for k, v in self.old_states.items():
